@@ -154,13 +154,14 @@ Section Main.
     destruct (main_all _ s WF Hs) as (Ir & Hsr & Ekr & Enr & Ewr & Emr).
     pose proof (main_c _ s WF Hs) as Ec.
     cbn [eval] in *. cbn zeta.
-    destruct (eval Item h1 s) as [a s1]. destruct (eval Item h2 s1) as [b s2]. cbn [fst snd] in *.
+    destruct (eval Item h1 s) as [a s1]. cbn [fst snd] in *.
+    destruct (eval Item h2 s1) as [b s2]. cbn [fst snd] in *.
     cbn [h_n h_W h_k h_kk h_wmax] in *.
     splits.
     - rewrite Enr, Ena, Enb. reflexivity.
     - rewrite Ewr, Ewa, Ewb. reflexivity.
     - intro Hb. rewrite Ekr, Eka, Ekb. destruct (qeqb_spec (h_W Item h2) 0) as [E|_]; [lra|reflexivity].
-    - intro Hb. unfold merge, merge_gen. qs. destruct (qeqb_spec (sk_cw b) 0) as [_|E]; [reflexivity|contradiction].
+    - intro Hb. unfold merge, merge_gen. qs. destruct (qeqb_spec (sk_cw b) 0) as [_|E]; [reflexivity|exfalso; apply E; exact Hb].
     - intros Ha Hb.
       destruct (qeqb_spec (h_W Item h2) 0) as [E|_]; [lra|].
       destruct (qeqb_spec (h_W Item h1) 0) as [E|_]; [lra|].
